@@ -328,6 +328,11 @@ class OperandNode(ASTNode):
         elif self.subtype == self.token.EMPTY:
             return 'None'
 
+        elif self.subtype == self.token.NUMBER and self.value.startswith('0'):
+            # python does not accept leading zeros on a number
+            value = self.value.lstrip('0')
+            return value if value[:1].isdigit() else f'0{value}'
+
         elif self.subtype in ("TEXT", "ERROR") and len(self.value) > 2:
             # if the string contains quotes, escape them
             value = self.value
